@@ -184,10 +184,12 @@ func (g *qGen) genBucket(w *qWorld) qQuery {
 
 // ---- C07-style: ORDER BY / OFFSET / LIMIT ----------------------------------------------------------------
 func (g *qGen) genOrder(w *qWorld, t *qTable) qQuery {
-	// under --strict-equal texts that differ only in case are different values with the same sort
-	// text; sort_value_test.go pins Less = FALSE for them in both directions, which is not an order
-	// (noted in DESIGN.md, outside the property): strict mode is generated only without such pairs
-	q := qQuery{strict: g.r.Intn(6) == 0 && !hasCaseVariants(t), mode: 2}
+	// --strict-equal is not part of the property's quantifier and is not generated here: in that mode
+	// SortValue.Less compares the upper-cased sort text of any two text cells and answers FALSE (never
+	// UNKNOWN) when the texts are alike ("a" vs "A": pinned by sort_value_test.go) or empty (datetime-like
+	// text has no sort text), so that under DESC each of two such rows sorts before the other.
+	// Recorded in DESIGN.md as an observation outside C07.
+	q := qQuery{strict: false, mode: 2}
 	a := "o"
 	var items, citems []string
 	for i, c := range t.cols {
@@ -287,19 +289,3 @@ func (g *qGen) genSortableTable(name string, nrows int, coqName string) *qTable 
 
 var _ = rand.Int
 
-func hasCaseVariants(t *qTable) bool {
-	for c := range t.cols {
-		seen := map[string]string{}
-		for _, r := range t.rows {
-			if r[c] == nil {
-				continue
-			}
-			k := strings.ToUpper(strings.TrimSpace(*r[c]))
-			if prev, ok := seen[k]; ok && prev != strings.TrimSpace(*r[c]) {
-				return true
-			}
-			seen[k] = strings.TrimSpace(*r[c])
-		}
-	}
-	return false
-}
